@@ -1555,6 +1555,30 @@ def argsort(x, axis=-1, kind=None, **kw):
     return asarray(x).argsort(kind=kind)
 
 
+def diagonal(x, offset=0):
+    xa = asarray(x)
+    if xa.ndim != 2 or offset != 0:
+        raise Unsupported("diagonal of a non-matrix / with offset")
+    n = _py_min(xa.shape)
+    return SArr(_obj_array([xa.a[i, i] for i in range(n)]) if n else rnp.empty((0,), dtype=object), xa.dt)
+
+
+def diag(x, k=0):
+    xa = asarray(x)
+    if k != 0:
+        raise Unsupported("diag with offset")
+    if xa.ndim == 2:
+        return diagonal(xa)
+    if xa.ndim == 1:
+        n = xa.size
+        out = rnp.empty((n, n), dtype=object)
+        for i in range(n):
+            for j in range(n):
+                out[i, j] = xa.a[i] if i == j else (0.0 if xa.dt.kind == "f" else 0)
+        return SArr(out, xa.dt)
+    raise Unsupported("diag of an nd array")
+
+
 def isclose(a, b, rtol=1e-05, atol=1e-08, equal_nan=False):
     """|a - b| <= atol + rtol * |b| element by element (finite values)"""
     d = abs(a - b)
